@@ -1,3 +1,357 @@
-/- C13 — property theorems (stub: the property is not claimed yet). -/
+/-
+  C13 — the validating parser raises exactly on nesting / attribute-name errors, else builds the same tree.
+
+  Model: `vStepT`/`vRun`/`vFeedTokens` in AHP/Model/Builder.lean (Validator.py).  Specification:
+  AHP/Spec/Validate.lean (`classify`: a scan over names only; `Bal`: the grammar of balanced documents).
+-/
+import AHP.Lemmas.BuilderTop
+import AHP.Spec.Validate
 namespace AHP.C13
+open AHP AHP.Spec
+
+def vRunT (s : TState) : List Token → Outcome TState
+  | [] => .ok s
+  | t :: ts => match vStepT s t with
+    | .ok s' => vRunT s' ts
+    | .multipleRoot => .multipleRoot
+    | .invalidClose => .invalidClose
+    | .missedClose => .missedClose
+    | .invalidAttr => .invalidAttr
+
+def outClass {σ : Type} : Outcome σ → Option Exc
+  | .ok _ => none
+  | .multipleRoot => some .multipleRoot
+  | .invalidClose => some .invalidClose
+  | .missedClose => some .missedClose
+  | .invalidAttr => some .invalidAttr
+
+/-- the validating run of the model is the tree run `vRunT` paired with the doctype fold -/
+theorem vRun_eq (ts : List Token) : ∀ s : BState,
+    vRun s ts = (vRunT s.tree ts).map (fun tr => ⟨tr, ts.foldl stepD s.doctype⟩) := by
+  induction ts with
+  | nil => intro s; rfl
+  | cons t ts ih =>
+    intro s
+    simp only [vRun, vRunT, vStep]
+    cases h : vStepT s.tree t <;> simp [Outcome.map, ih]
+
+private theorem names_isEmpty (s : TState) : (names s).isEmpty = s.stack.isEmpty := by
+  unfold names; cases s.stack <;> rfl
+
+private theorem hasRoot_addNode (s : TState) (c : Node) : (addNode s c).hasRoot = true := by
+  unfold addNode TState.hasRoot
+  cases s.stack <;> simp
+
+private theorem hasRoot_of_stack {s : TState} (h : s.stack ≠ []) : s.hasRoot = true := by
+  unfold TState.hasRoot; cases hs : s.stack with
+  | nil => exact absurd hs h
+  | cons f fs => simp
+
+/-- **C13a.** Which exception the validating parser raises — if any — is what the names-only scan says:
+    the first stray close, skipped close or illegal attribute name, whichever comes first (or the
+    several-top-level-nodes condition that triggers the wrapper retry). -/
+theorem vRunT_classify (ts : List Token) : ∀ s : TState,
+    outClass (vRunT s ts) = classify (names s) s.hasRoot ts := by
+  induction ts with
+  | nil => intro s; rfl
+  | cons t ts ih =>
+    intro s
+    have hE := names_isEmpty s
+    have hskip : vStepT s t = .ok s → classify (names s) s.hasRoot (t :: ts) = classify (names s) s.hasRoot ts →
+        outClass (vRunT s (t :: ts)) = classify (names s) s.hasRoot (t :: ts) := by
+      intro h1 h2; simp only [vRunT, h1, h2]; exact ih s
+    have htext : ∀ txt : Str, vStepT s t = addTextStrict s txt →
+        classify (names s) s.hasRoot (t :: ts) =
+          (if (names s).isEmpty then some .multipleRoot else classify (names s) s.hasRoot ts) →
+        outClass (vRunT s (t :: ts)) = classify (names s) s.hasRoot (t :: ts) := by
+      intro txt h1 h2
+      rw [h2, hE]
+      simp only [vRunT, h1, addTextStrict]
+      by_cases he : s.stack.isEmpty = true
+      · simp [he, outClass]
+      · simp only [he, Bool.false_eq_true, if_false]
+        have hne : s.stack ≠ [] := by intro e; rw [e] at he; simp at he
+        have := ih (addNode s (.text txt))
+        rw [names_addNode, hasRoot_addNode, ← hasRoot_of_stack hne] at this
+        exact this
+    have hstart : ∀ (n : Str) (a : List Attr) (sc : Bool),
+        vStepT s t = (if a.all (fun p => validAttrName p.1) then handleStart s n a sc else .invalidAttr) →
+        classify (names s) s.hasRoot (t :: ts) =
+          (if !legalAttrs a then some .invalidAttr
+           else if s.hasRoot && (names s).isEmpty then some .multipleRoot
+           else if sc || Spec.isVoid (lower n) then classify (names s) true ts
+           else classify (lower n :: names s) true ts) →
+        outClass (vRunT s (t :: ts)) = classify (names s) s.hasRoot (t :: ts) := by
+      intro n a sc h1 h2
+      rw [h2, hE]
+      simp only [vRunT, h1, legalAttrs]
+      by_cases hl : a.all (fun p => validAttrName p.1) = true
+      · simp only [hl, if_true, Bool.not_true, Bool.false_eq_true, if_false]
+        unfold handleStart
+        by_cases hc : (s.hasRoot && s.stack.isEmpty) = true
+        · have : (!s.hasRoot || !s.stack.isEmpty) = false := by
+            simp only [Bool.and_eq_true] at hc; simp [hc.1, hc.2]
+          simp [this, hc, outClass]
+        · have : (!s.hasRoot || !s.stack.isEmpty) = true := by
+            cases h1 : s.hasRoot <;> cases h2 : s.stack.isEmpty <;> simp_all
+          simp only [this, if_true, hc, Bool.false_eq_true, if_false, isVoid_eq]
+          by_cases hv : (sc || Spec.isVoid (lower n)) = true
+          · simp only [hv, if_true]
+            have := ih (addNode s (.elem (lower n) (intake a AttrState.empty) true []))
+            rw [names_addNode, hasRoot_addNode] at this
+            exact this
+          · simp only [hv, Bool.false_eq_true, if_false]
+            have := ih { s with stack := ⟨lower n, intake a AttrState.empty, []⟩ :: s.stack }
+            simpa [names, TState.hasRoot] using this
+      · simp [hl, outClass]
+    cases t with
+    | decl d => exact hskip rfl rfl
+    | unknownDecl d => exact hskip rfl rfl
+    | pi d => exact hskip rfl rfl
+    | comment c => exact htext _ rfl (by simp [classify])
+    | entity c => exact htext _ rfl (by simp [classify])
+    | charref c => exact htext _ rfl (by simp [classify])
+    | start n a => exact hstart n a false rfl (by simp [classify])
+    | startend n a => exact hstart n a true rfl (by simp [classify])
+    | data d =>
+      by_cases hd : d.isEmpty = true
+      · exact hskip (by simp [vStepT, stepT, hd]) (by simp [classify, hd])
+      · by_cases he : s.stack.isEmpty = true
+        · by_cases hb : isBlank d = true
+          · exact hskip (by simp [vStepT, stepT, hd, he, hb]) (by simp [classify, hd, hE, he, hb])
+          · simp [vRunT, vStepT, stepT, hd, he, hb, classify, hE, outClass]
+        · have hne : s.stack ≠ [] := by intro e; rw [e] at he; simp at he
+          have := ih (addNode s (.text d))
+          rw [names_addNode, hasRoot_addNode, ← hasRoot_of_stack hne] at this
+          simp only [vRunT, vStepT, stepT, hd, he, classify, hE]
+          simpa using this
+    | end_ n =>
+      cases hs : s.stack with
+      | nil => simp [vRunT, vStepT, hs, classify, names, outClass]
+      | cons f fs =>
+        have hn : names s = f.name :: fs.map (·.name) := by simp [names, hs]
+        have hr : s.hasRoot = true := hasRoot_of_stack (by rw [hs]; simp)
+        by_cases hc : (f.name :: fs.map (·.name)).contains n = true
+        · have hc' : (List.map (fun x => x.name) (f :: fs)).contains n = true := by simpa using hc
+          by_cases hm : f.name = n
+          · have hv : vStepT s (.end_ n) = .ok (pop1 s) := by
+              simp only [vStepT, hs, hc', Bool.not_true, Bool.false_eq_true, if_false, hm, ne_eq,
+                not_true_eq_false]
+            have hcl : classify (names s) s.hasRoot (.end_ n :: ts) = classify (fs.map (·.name)) true ts := by
+              rw [hn, hr]
+              have hc3 : (n :: fs.map (·.name)).contains n = true := by simp
+              simp only [classify, hm, hc3, Bool.not_true, Bool.false_eq_true, if_false, ne_eq,
+                not_true_eq_false]
+            have hp : (pop1 s).hasRoot = true := by
+              unfold pop1; rw [hs]; exact hasRoot_addNode _ _
+            have hpn : names (pop1 s) = fs.map (·.name) := by
+              unfold pop1; rw [hs]; simp only [names_addNode]; rfl
+            have := ih (pop1 s)
+            rw [hpn, hp] at this
+            simp only [vRunT, hv, hcl]
+            exact this
+          · have hv : vStepT s (.end_ n) = .missedClose := by
+              simp only [vStepT, hs, hc', Bool.not_true, Bool.false_eq_true, if_false, ne_eq, hm,
+                not_false_eq_true, if_true]
+            have hcl : classify (names s) s.hasRoot (.end_ n :: ts) = some .missedClose := by
+              rw [hn]
+              simp only [classify, hc, Bool.not_true, Bool.false_eq_true, if_false, ne_eq, hm,
+                not_false_eq_true, if_true]
+            simp only [vRunT, hv, hcl, outClass]
+        · have hc' : (List.map (fun x => x.name) (f :: fs)).contains n = false := by simpa using hc
+          have hc2 : (f.name :: fs.map (·.name)).contains n = false := by simpa using hc
+          have hv : vStepT s (.end_ n) = .invalidClose := by
+            simp only [vStepT, hs, hc', Bool.not_false, if_true]
+          have hcl : classify (names s) s.hasRoot (.end_ n :: ts) = some .invalidClose := by
+            rw [hn]
+            simp only [classify, hc2, Bool.not_false, if_true]
+          simp only [vRunT, hv, hcl, outClass]
+
+/-- **C13c.** When the validating parser does not raise it has built exactly what the plain parser builds. -/
+theorem vRunT_ok_same_tree (ts : List Token) : ∀ s s' : TState, vRunT s ts = .ok s' → runT s ts = .ok s' := by
+  induction ts with
+  | nil => intro s s' h; exact h
+  | cons t ts ih =>
+    intro s s' h
+    simp only [vRunT] at h
+    cases hv : vStepT s t with
+    | ok s1 =>
+      rw [hv] at h
+      have hsame : stepT s t = .ok s1 := by
+        cases t with
+        | start n a =>
+          simp only [vStepT] at hv; split at hv
+          · exact hv
+          · cases hv
+        | startend n a =>
+          simp only [vStepT] at hv; split at hv
+          · exact hv
+          · cases hv
+        | end_ n =>
+          cases hs : s.stack with
+          | nil => simp [vStepT, hs] at hv
+          | cons f fs =>
+            by_cases hc' : (List.map (fun x => x.name) (f :: fs)).contains n = true
+            · by_cases hm' : f.name = n
+              · have hvv : vStepT s (.end_ n) = .ok (pop1 s) := by
+                  simp only [vStepT, hs, hc', Bool.not_true, Bool.false_eq_true, if_false, hm', ne_eq,
+                    not_true_eq_false]
+                rw [hvv] at hv
+                have hc2 : (List.map (fun x => x.name) s.stack).contains n = true := by rw [hs]; exact hc'
+                simp only [stepT, handleEnd, hc2, if_true]
+                have : popTo n s.stack.length s = pop1 s := by
+                  rw [hs]; simp [popTo, hs, hm']
+                rw [this]; exact hv
+              · have hvv : vStepT s (.end_ n) = .missedClose := by
+                  simp only [vStepT, hs, hc', Bool.not_true, Bool.false_eq_true, if_false, ne_eq, hm',
+                    not_false_eq_true, if_true]
+                rw [hvv] at hv; cases hv
+            · have hc2 : (List.map (fun x => x.name) (f :: fs)).contains n = false := by simpa using hc'
+              have hvv : vStepT s (.end_ n) = .invalidClose := by
+                simp only [vStepT, hs, hc2, Bool.not_false, if_true]
+              rw [hvv] at hv; cases hv
+        | decl d => exact hv
+        | unknownDecl d => exact hv
+        | pi d => exact hv
+        | comment d => exact hv
+        | entity d => exact hv
+        | charref d => exact hv
+        | data d => exact hv
+      simp only [runT, hsame]
+      exact ih s1 s' h
+    | multipleRoot => rw [hv] at h; cases h
+    | invalidClose => rw [hv] at h; cases h
+    | missedClose => rw [hv] at h; cases h
+    | invalidAttr => rw [hv] at h; cases h
+
+/-- **C13b (inside an open element).** A balanced sequence with legal attribute names is accepted and
+    leaves the open elements as they were — proved from the grammar, not from the scan. -/
+theorem bal_accepted_inside {ts : List Token} (hb : Bal ts) : ∀ s : TState, s.stack ≠ [] →
+    ∃ s', vRunT s ts = .ok s' ∧ names s' = names s := by
+  induction hb with
+  | nil => intro s _; exact ⟨s, rfl, rfl⟩
+  | inert t ts hi _ ih =>
+    intro s hne
+    have hst : (!s.stack.isEmpty) = true := by
+      cases hs : s.stack with
+      | nil => exact absurd hs hne
+      | cons f fs => simp
+    have : ∃ s1, vStepT s t = .ok s1 ∧ names s1 = names s ∧ s1.stack ≠ [] := by
+      cases t with
+      | start n a => simp [isInert] at hi
+      | startend n a => simp [isInert] at hi
+      | end_ n => simp [isInert] at hi
+      | decl d => exact ⟨s, rfl, rfl, hne⟩
+      | unknownDecl d => exact ⟨s, rfl, rfl, hne⟩
+      | pi d => exact ⟨s, rfl, rfl, hne⟩
+      | comment d => exact ⟨_, by simp only [vStepT, stepT]; exact stepT_text_ok s hne _, names_addNode _ _, stack_ne_of_names hne _⟩
+      | entity d => exact ⟨_, by simp only [vStepT, stepT]; exact stepT_text_ok s hne _, names_addNode _ _, stack_ne_of_names hne _⟩
+      | charref d => exact ⟨_, by simp only [vStepT, stepT]; exact stepT_text_ok s hne _, names_addNode _ _, stack_ne_of_names hne _⟩
+      | data d =>
+        by_cases hd : d.isEmpty = true
+        · exact ⟨s, by simp [vStepT, stepT, hd], rfl, hne⟩
+        · exact ⟨addNode s (.text d), by simp [vStepT, stepT, hd, hst], names_addNode _ _, stack_ne_of_names hne _⟩
+    obtain ⟨s1, h1, h2, h3⟩ := this
+    obtain ⟨s', h4, h5⟩ := ih s1 h3
+    exact ⟨s', by simp only [vRunT, h1]; exact h4, by rw [h5, h2]⟩
+  | void n a ts hl hv _ ih =>
+    intro s hne
+    have h1 : vStepT s (.start n a) = .ok (addNode s (.elem (lower n) (intake a AttrState.empty) true [])) := by
+      simp only [vStepT]; rw [handleStart_inside s hne]
+      simp only [legalAttrs] at hl; simp [hl, hv]
+    obtain ⟨s', h4, h5⟩ := ih _ (stack_ne_of_names hne _)
+    exact ⟨s', by simp only [vRunT, h1]; exact h4, by rw [h5, names_addNode]⟩
+  | selfClosed n a ts hl _ ih =>
+    intro s hne
+    have h1 : vStepT s (.startend n a) = .ok (addNode s (.elem (lower n) (intake a AttrState.empty) true [])) := by
+      simp only [vStepT]; rw [handleStart_inside s hne]
+      simp only [legalAttrs] at hl; simp [hl]
+    obtain ⟨s', h4, h5⟩ := ih _ (stack_ne_of_names hne _)
+    exact ⟨s', by simp only [vRunT, h1]; exact h4, by rw [h5, names_addNode]⟩
+  | elem n a inner ts hl hv _ _ ihi iht =>
+    intro s hne
+    let s1 : TState := { s with stack := ⟨lower n, intake a AttrState.empty, []⟩ :: s.stack }
+    have h1 : vStepT s (.start n a) = .ok s1 := by
+      simp only [vStepT]; rw [handleStart_inside s hne]
+      simp only [legalAttrs] at hl; simp [hl, hv]; rfl
+    obtain ⟨s2, h2, hn2⟩ := ihi s1 (by simp [s1])
+    have hn2' : names s2 = lower n :: names s := by rw [hn2]; rfl
+    -- the end tag closes exactly this element
+    have h3 : vStepT s2 (.end_ (lower n)) = .ok (pop1 s2) := by
+      cases hs2 : s2.stack with
+      | nil => simp [names, hs2] at hn2'
+      | cons f fs =>
+        have hf : f.name = lower n := by simp [names, hs2] at hn2'; exact hn2'.1
+        simp [vStepT, hs2, hf]
+    have hn3 : names (pop1 s2) = names s := by
+      cases hs2 : s2.stack with
+      | nil => simp [names, hs2] at hn2'
+      | cons f fs =>
+        have : fs.map (·.name) = names s := by simp [names, hs2] at hn2'; exact hn2'.2
+        unfold pop1; rw [hs2]; simp only [names_addNode]; exact this
+    have hne3 : (pop1 s2).stack ≠ [] := by
+      intro e
+      have : names (pop1 s2) = [] := by simp [names, e]
+      rw [hn3] at this
+      cases hs : s.stack with
+      | nil => exact hne hs
+      | cons f fs => simp [names, hs] at this
+    obtain ⟨s', h4, h5⟩ := iht (pop1 s2) hne3
+    refine ⟨s', ?_, by rw [h5, hn3]⟩
+    have happ : ∀ (l1 l2 : List Token) (sa sb : TState), vRunT sa l1 = .ok sb → vRunT sa (l1 ++ l2) = vRunT sb l2 := by
+      intro l1
+      induction l1 with
+      | nil => intro l2 sa sb h; simp [vRunT] at h; rw [h]; rfl
+      | cons x l1 ihl =>
+        intro l2 sa sb h
+        simp only [vRunT, List.cons_append] at h ⊢
+        cases hx : vStepT sa x <;> rw [hx] at h <;> simp at h ⊢
+        exact ihl l2 _ sb h
+    simp only [List.cons_append, vRunT, h1]
+    rw [happ inner _ s1 s2 h2]
+    simp only [vRunT, h3]
+    exact h4
+
+/-- **C13b / C13d.** A balanced document placed inside the wrapper — which is how every multi-root
+    serialisation is parsed, and how a single-root one is parsed after its root opens — validates. -/
+theorem bal_wrapped_validates {ts : List Token} (hb : Bal ts) :
+    ∃ s', vRunT TState.init (.start wrapperName [] :: ts ++ [.end_ wrapperName]) = .ok s' := by
+  have hw : Bal (.start wrapperName [] :: ts ++ .end_ (lower wrapperName) :: []) :=
+    Bal.elem wrapperName [] ts [] (by decide) (by decide) hb Bal.nil
+  rw [wrapper_lower] at hw
+  -- run the wrapper start from the initial state, then we are inside an open element
+  let s1 : TState := ⟨[⟨wrapperName, AttrState.empty, []⟩], none⟩
+  have hs : vStepT TState.init (.start wrapperName []) = .ok s1 := by
+    simp [vStepT, handleStart, TState.init, TState.hasRoot, wrapper_lower, wrapper_not_void, intake, s1]
+  obtain ⟨s2, h2, hn2⟩ := bal_accepted_inside hb s1 (by simp [s1])
+  have happ : ∀ (l1 l2 : List Token) (sa sb : TState), vRunT sa l1 = .ok sb → vRunT sa (l1 ++ l2) = vRunT sb l2 := by
+    intro l1
+    induction l1 with
+    | nil => intro l2 sa sb h; simp [vRunT] at h; rw [h]; rfl
+    | cons x l1 ihl =>
+      intro l2 sa sb h
+      simp only [vRunT, List.cons_append] at h ⊢
+      cases hx : vStepT sa x <;> rw [hx] at h <;> simp at h ⊢
+      exact ihl l2 _ sb h
+  have hn2' : names s2 = [wrapperName] := by rw [hn2]; rfl
+  have h3 : vStepT s2 (.end_ wrapperName) = .ok (pop1 s2) := by
+    cases hs2 : s2.stack with
+    | nil => simp [names, hs2] at hn2'
+    | cons f fs =>
+      have hf : f.name = wrapperName := by simp [names, hs2] at hn2'; exact hn2'.1
+      simp [vStepT, hs2, hf]
+  refine ⟨pop1 s2, ?_⟩
+  simp only [List.cons_append, vRunT, hs]
+  rw [happ ts _ s1 s2 h2]
+  simp [vRunT, h3]
+
+/-! #### Non-vacuity -/
+example : Bal [.start "div".toList [("id".toList, some "a".toList)], .data "x".toList, .start "br".toList [],
+    .end_ "div".toList] :=
+  Bal.elem "div".toList _ [.data "x".toList, .start "br".toList []] [] (by decide) (by decide)
+    (Bal.inert _ _ (by decide) (Bal.void _ _ _ (by decide) (by decide) Bal.nil)) Bal.nil
+
+example : classify [] false [.start "a".toList [], .end_ "b".toList] = some .invalidClose := by decide
+example : classify [] false [.start "a".toList [], .start "b".toList [], .end_ "a".toList] = some .missedClose := by decide
+
 end AHP.C13
